@@ -61,3 +61,61 @@ Theorem C01_round_trip_graphs :
       flat_obs (decode_frames Generic ak po (emitted evs) st0) = (flat_map event_of_quad (d_stmts d), None).
 Proof. exact graphs_round_trip. Qed.
 Print Assumptions C01_round_trip_graphs.
+
+(* ---- byte level, end to end ---- *)
+From PJ.Proofs Require Import WireRT BytesE2E BytesRoundTrip.
+
+(* The wire round trip itself: the protobuf parser model reads back what the serialiser model writes,
+   for every frame whose ids / option values are below 2^32 and whose terms sit where the schema
+   allows them (wf_frame), of fewer than 128^10 bytes.  No [readable] premise any more. *)
+Theorem C01_wire_round_trip :
+  forall f : frame, wf_frame f -> nlen (ser_frame f) < varint_max -> parse_frame (ser_frame f) = Some f.
+Proof. exact parse_frame_ser. Qed.
+Print Assumptions C01_wire_round_trip.
+
+(* Serializer model -> bytes (write_delimited) -> parser model (framing detection, frame reader,
+   protobuf parser, decoder): exactly the statements that went in, in order, normal end, one result
+   per frame written.  [small]: each frame is shorter than 128^10 bytes. *)
+Theorem C01_bytes_round_trip_triples :
+  forall (o : soptions) (s s' : stream) (d : sdata) (evs : list tev) (grouped : bool),
+    stream_new TripleStream Generic o = Ok s -> cfg_ok o (st_logical s) ->
+    p_nd (so_params o) = false -> fl_rows (st_flow s) = [] ->
+    triples_stream_frames d s = (s', evs) -> raised evs = None -> Forall small (emitted evs) ->
+    let r := parse_stream Generic grouped false (write_delimited (emitted evs)) in
+    flat_events r = flat_map event_of_triple (d_stmts d) /\ pr_end r = PEnd /\
+    length (pr_frames r) = length (emitted evs).
+Proof. exact triples_bytes_round_trip. Qed.
+Print Assumptions C01_bytes_round_trip_triples.
+
+Theorem C01_bytes_round_trip_quads :
+  forall (o : soptions) (s s' : stream) (d : sdata) (evs : list tev) (grouped : bool),
+    stream_new QuadStream Generic o = Ok s -> cfg_ok o (st_logical s) ->
+    p_nd (so_params o) = false -> fl_rows (st_flow s) = [] ->
+    quads_stream_frames d s = (s', evs) -> raised evs = None -> Forall small (emitted evs) ->
+    let r := parse_stream Generic grouped false (write_delimited (emitted evs)) in
+    flat_events r = flat_map event_of_quad (d_stmts d) /\ pr_end r = PEnd /\
+    length (pr_frames r) = length (emitted evs).
+Proof. exact quads_bytes_round_trip. Qed.
+Print Assumptions C01_bytes_round_trip_quads.
+
+Theorem C01_bytes_round_trip_graphs :
+  forall (o : soptions) (s s' : stream) (d : sdata) (evs : list tev) (grouped : bool),
+    stream_new GraphStream Generic o = Ok s -> cfg_ok o (st_logical s) ->
+    p_nd (so_params o) = false -> fl_rows (st_flow s) = [] -> forallb wf_quad (d_stmts d) = true ->
+    graphs_stream_frames_generic d s = (s', evs) -> raised evs = None -> Forall small (emitted evs) ->
+    let r := parse_stream Generic grouped false (write_delimited (emitted evs)) in
+    flat_events r = flat_map event_of_quad (d_stmts d) /\ pr_end r = PEnd /\
+    length (pr_frames r) = length (emitted evs).
+Proof. exact graphs_bytes_round_trip. Qed.
+Print Assumptions C01_bytes_round_trip_graphs.
+
+(* non-delimited: a run that emitted one frame, written as a single message *)
+Theorem C01_bytes_round_trip_single :
+  forall (o : soptions) (s s' : stream) (d : sdata) (evs : list tev) (f : frame) (grouped : bool),
+    stream_new TripleStream Generic o = Ok s -> cfg_ok o (st_logical s) ->
+    p_nd (so_params o) = false -> fl_rows (st_flow s) = [] ->
+    triples_stream_frames d s = (s', evs) -> raised evs = None -> emitted evs = [f] -> small f ->
+    let r := parse_stream Generic grouped false (write_single f) in
+    flat_events r = flat_map event_of_triple (d_stmts d) /\ pr_end r = PEnd.
+Proof. exact triples_bytes_round_trip_single. Qed.
+Print Assumptions C01_bytes_round_trip_single.
